@@ -42,6 +42,8 @@ COPIES = [
     ('vmf', 'Cordon', 'copy', {}),
     ('vmf', 'UVAxis', 'copy', {}),
     ('keyvalues', 'Keyvalues', 'copy', {}),
+    ('vmf', 'EntityFixup', '__copy__', {'_matcher': 'a compiled pattern derived from the keys: immutable, rebuilt on demand'}),
+    ('vmf', 'EntityFixup', '__deepcopy__', {'_matcher': 'a compiled pattern derived from the keys: immutable, rebuilt on demand'}),
 ]
 
 
